@@ -84,8 +84,9 @@ Lemma square_ge_of_square n (h : list (list A)) : square n h -> square_ge n h = 
 Proof.
   intros [Hl Hr]. unfold square_ge. rewrite Hl, Nat.leb_refl. simpl.
   apply forallb_forall. intros row Hin.
-  apply (In_nth _ _ []) in Hin. destruct Hin as [i [Hi E]]. rewrite firstn_length, Hl, Nat.min_id in Hi.
-  rewrite nth_firstn in E. destruct (Nat.ltb_spec i n); [|lia]. rewrite <- E, Hr by exact Hi. apply Nat.leb_refl.
+  rewrite <- Hl, firstn_all in Hin.
+  apply (In_nth _ _ []) in Hin. destruct Hin as [i [Hi E]]. rewrite Hl in Hi.
+  rewrite <- E, Hr by exact Hi. apply Nat.leb_refl.
 Qed.
 
 (* ---------------------------------------------------------------- Set, closed form *)
@@ -132,8 +133,8 @@ Proof.
     - rewrite upd_other by exact E. split; reflexivity. }
   destruct (Nat.leb_spec 1 (rorder r2)) as [H1|H1].
   2:{ (* order 0 *)
-    eexists. split; [reflexivity|]. split; [intros q Hq; apply upd_other; exact Hq|].
-    rewrite upd_same. split; [exact Hsh2|].
+    exists s1. split; [reflexivity|]. split; [intros q Hq; apply upd_other; exact Hq|].
+    unfold s1. rewrite upd_same. split; [exact Hsh2|].
     unfold norm, set_canon. rewrite Hk2, Hv2, Ho2, Hn2. fold o n.
     destruct (Nat.leb_spec 1 o); [lia|]. destruct (Nat.leb_spec 2 o); [lia|]. reflexivity. }
   assert (Hlen : length (rderiv r2) = n) by (rewrite <- Hn2; apply Hsh2; exact H1).
@@ -158,7 +159,7 @@ Proof.
   2:{ (* order 1 *)
     eexists. split; [reflexivity|]. split; [exact Hoth2|].
     assert (Sh : shape (s2 c)).
-    { split; intro Hq; [rewrite G7, G5; exact Hlen|rewrite G4 in Hq; lia]. }
+    { split; intro Hq; [rewrite G7, G5, Hn2; exact Hlen|rewrite G4 in Hq; lia]. }
     split; [exact Sh|].
     unfold norm, set_canon. rewrite G2, G3, G4, G5, Hk2, Hv2, Ho2, Hn2. fold o n.
     rewrite Ho2 in H1, H2.
@@ -179,7 +180,7 @@ Proof.
   eexists. split; [reflexivity|]. split; [intros q Hq; rewrite P1 by exact Hq; apply Hoth2; exact Hq|].
   assert (Sh : shape (s3 c)).
   { split; intro Hq.
-    - rewrite P6, P5, G7, G5. exact Hlen.
+    - rewrite P6, P5, G7, G5, Hn2. exact Hlen.
     - rewrite P5, G5, Hn2. exact Hsq. }
   split; [exact Sh|].
   unfold norm, set_canon. rewrite P2, P3, P4, P5, G2, G3, G4, G5, Hk2, Hv2, Ho2, Hn2. fold o n.
@@ -197,7 +198,7 @@ Proof.
     { destruct b as [q|v]; [|reflexivity]. cbn [rd].
       destruct (Nat.eq_dec q c) as [Eq|Eq]; [subst q|rewrite G1 by exact Eq; reflexivity].
       unfold gh. rewrite G4, G6, Hc1. reflexivity. }
-    rewrite E, (proj2 (Hrd1 0%nat j)). reflexivity.
+    rewrite E, (proj2 (Hrd1 i j)). reflexivity.
 Qed.
 
 Theorem set_indep c c' b (s : StA) :
